@@ -1,7 +1,7 @@
 SPECIFICATION NSpec
 CONSTANTS SmallIds = {1} Widths = {} MaxTok = 1
   Texts <- CTexts HRs <- CHRsQ
-  MaxIn = 3 Kinds = {"h", "s", "l"} MsgIds = {1, 200} NextRVs <- CRVs Whats <- CWhats
+  MaxIn = 2 Kinds = {"h", "s"} MsgIds = {1} NextRVs <- CRVs Whats <- CWhats
   MaxQ = 2 Hows = {"shut"} MaxSent = 2
 CONSTRAINT Bound
 VIEW View
